@@ -2,6 +2,7 @@
 mod common;
 mod c19;
 mod c20;
+mod c04;
 mod runner;
 
 use std::path::PathBuf;
@@ -42,6 +43,7 @@ fn main() {
     match cmd.as_str() {
         "c19" => c19::run(&args),
         "c20" => c20::run(&args),
+        "c04" => c04::run(&args),
         "run" => {
             // vh run file.bas [stdin-file]: prints the outcome of one program (debugging aid, used by replays)
             let src = std::fs::read_to_string(&args.extra[0]).unwrap();
